@@ -1,0 +1,25 @@
+//go:build verif
+
+// Contract for the point decoder of this twisted Edwards curve (comment-only; installed by /verif/gcv gen-contracts).
+// Acceptance-implies-check: SetBytes is total on every buffer, refuses exactly the buffers shorter than an encoding,
+// and accepts only if the y-coordinate was decoded by the strict decoder of the field (canonical encodings only) and
+// the square root that defines the x-coordinate exists (the result of Sqrt was examined); it then reports the size of
+// the encoding. The field methods are opaque calls captured at the call site; computeX is executed in place.
+
+package bandersnatch
+
+//@ func PointAffine.SetBytes
+//@ layer ring fr.Element
+//@ option nomerge
+//@ option opaque-calls
+//@ option inline-callees computeX
+//@ ghost canon = false
+//@ ghost rooted = false
+//@ cut after call SetBytesCanonical #1
+//@ + ghost canon = isnil(callresult) && same(callarg0, &p.Y)
+//@ cut after call Sqrt #1
+//@ + ghost rooted = !isnil(callresult)
+//@ ensures[short] len(buf) < sizePointCompressed ==> !isnil(result1) && result0 == 0
+//@ ensures[accept] isnil(result1) ==> canon && rooted && result0 == sizePointCompressed
+//@ modifies p
+//@ end
